@@ -8,7 +8,9 @@ META = {
     "level": "proof",
     "level_text": "Theorems in props/C05.v over the model of Channel.send/recv and the stream read/write loops: for every packet sequence, either compression "
                   "setting on either side, every split of writes and reads and every interleaving of timeouts/would-blocks the receiver gets exactly the packets sent; "
-                  "for every cut point or transport error it gets an exact prefix of whole packets and the stream is closed. zlib is a section variable with "
+                  "for every cut point or transport error it gets an exact prefix of whole packets and the stream is closed; under ANY write behaviour (partial sends, "
+                  "failure after any byte) the wire holds a prefix of the frame - all of it exactly when send returned - and a reader of that wire gets whole leading "
+                  "packets only (c05_writer_any_transport, c05_writer_fault_seen_by_reader). zlib is a section variable with "
                   "decompress(compress x) = x. Threshold/chunk/header/flusher and the loop skeletons are regenerated from channel.py/stream.py/consts.py; the "
                   "extracted model is compared with the real classes over scripted fake sockets and pipes.",
     "level_note": "Trusted: Coq kernel, pygen, extraction+driver, harness fakes (FakeSock, fake os.read/os.write); zlib round-trip is an explicit hypothesis; kernel "
